@@ -22,7 +22,7 @@ TRUSTED = ['Lean 4.33 kernel', 'axioms: propext, Classical.choice, Quot.sound', 
            'harness/c15.py comparison tolerances (1e-12 forward maps, 1e-9 rebuilt rotations, 1e-6 inside |beta|<zero_eps)',
            'modelled, not verified: numqi/group/_lie.py, matrix_space/_clebsch_gordan.py; sympy CG values are a contract (probed)']
 
-OPEN_STATEMENTS = ['Numqi.C15.So3RoundtripThreshold.Statement', 'Numqi.C15.Su2Roundtrip.Statement']
+OPEN_STATEMENTS = ['Numqi.C15.So3RoundtripThreshold.Statement', 'Numqi.C15.Su2Roundtrip.Statement', 'Numqi.C15.Su2IrrepHom.Statement']
 PI = math.pi
 EPS = 1e-7
 
